@@ -181,8 +181,7 @@ def step (σ : St) (op obs : List String) : St × List Msg :=
         checkRangeInv "day-of-month" (some .dayOfMonth) (readField d') ++ checkRangeInv "month" (some .month) (readField m') ++
         checkRangeInv "year" (some .year) (readField y')
       | _, _ => []
-    let tags : List Msg := if parsed.isNone then [.tag "iv:rejected"] else
-      (if o = "ok" ∧ (t ≠ "nil" ∨ w ≠ "nil") then [] else [])
+    let tags : List Msg := if parsed.isNone then [.tag "iv:rejected"] else []
     ({ σ with sets }, expectEq "iv.parse" modelObs implObs ++ inv ++ tags)
   | ["load", routes], [o] =>
     let setNames := σ.sets.map (·.name)
